@@ -449,6 +449,9 @@ def inspect_selection_unit(res):
 
                     def sym_method(self, ex_, name, a, kw):
                         log.append((self.what, name, list(a), dict(kw)))
+                        if name == "get_throughput_sum":
+                            # arbitrary per-port totals (a decision taken from them is a decision taken from unknown numbers)
+                            return [SNum(z3.FreshReal("port_total"), False) for _ in range(3)]
                         return Opaque(self.what + "." + name)
 
                     def sym_getattr(self, ex_, attr):
